@@ -159,7 +159,8 @@ def sweep_residuals(ctx, desc, obs, model, vtol, itol, relprefix=""):
                          {"phase": p["phase"], "row": r["name"], "impl_i": r["iin"], "model_G": gv})
 
 
-def run_cases(ctx, n, gen_fn, per_case, solve_kw_fn=None, accept_errors=("ValueError(unstable)", "RuntimeError")):
+def run_cases(ctx, n, gen_fn, per_case, solve_kw_fn=None, accept_errors=("ValueError(unstable)", "RuntimeError"),
+              carrier="rat"):
     """generate → build → solve → certify → per_case.  Construction failures are skipped and counted."""
     skipped = 0
     for k in range(n):
@@ -175,7 +176,7 @@ def run_cases(ctx, n, gen_fn, per_case, solve_kw_fn=None, accept_errors=("ValueE
                 ctx.notes.append("skipped case %d: %s %r" % (k, err[0], err[1])) if len(ctx.notes) < 10 else None
             continue
         obs = sysdesc.observe(df)
-        model = cert(ctx.drv, desc, obs, ta=kw.get("ta", 25.0))
+        model = cert(ctx.drv, desc, obs, ta=kw.get("ta", 25.0), carrier=carrier)
         ctx.stats["outcome:ok"] += 1
         shape_stats(ctx, desc)
         if not model.get("ok"):
